@@ -18,6 +18,10 @@
                                   back to the original names, KF-adjoint-roundtrip-identity, fixed in
                                   /repo 2cc17fb): recording at pop time + leaves from `pending` gives 1 / 1,
                                   the result keyed by eager value gave the leaf 0 and the node 2
+    first_writer_misattributes, report_leaf_lastWriter   the eager→lazy map: with "last writer wins" (the code)
+                                  a leaf is reported exactly what is left pending under its key, for any
+                                  tape; with "first writer wins" the node `id(x)` in `x ⊗ id(x)` is
+                                  reported under the leaf `x`, whose adjoint doubles (2 → 4)
     old_sweep_double_propagation  where hash-consing identifies two tape entries (same un-mangled eager
                                   value, KF-adjoint-tape-key-collision, fixed in /repo d732c46) the old sweep
                                   propagated the cumulative total at each of them: 3 instead of 2
@@ -282,6 +286,76 @@ theorem result_leaves_eq_tree_backward (tape : List (Entry M)) (h : AddTape tape
 /-- … and the node adjoints are the values popped, entry by entry: the first one is the seed -/
 theorem result_nodes_head (e : Entry M) (older : List (Entry M)) (bag : List (Nat × M)) :
     (result (· + ·) (0 : M) (e :: older) bag).nodes.head? = some (e.key, pend bag e.key) := rfl
+
+/-! ### the eager→lazy map: last writer wins -/
+
+/-- `root(10) = x ⊗ id(x)` with `id(x) = x(i='j')(j='i')`: the bare `x` and the eager value of the outer
+    renaming are the same object (key 5), the inner renaming has key 4 — newest first; leaf keys: [5] -/
+def bareAndIdTape : List (Entry Nat) :=
+  [⟨10, [(5, fun a => a), (5, fun a => a)]⟩, ⟨5, [(4, fun a => a)]⟩, ⟨4, [(5, fun a => a)]⟩]
+
+/-- With the map as the code writes it (last writer wins) the adjoint popped at the outer renaming is
+    reported under that node (label 2·1+1 = 3) and the leaf `x` (label 10) gets what is left pending:
+    2 = the tree-shaped pass (both occurrences).  If the first lazy form recorded for the eager value
+    were kept (`x ↦ x`), the node's popped adjoint would be reported under the leaf as well: 4. -/
+theorem first_writer_misattributes :
+    report (· + ·) 0 .lastWriter [5] bareAndIdTape [(10, 1)] (2 * 5) = 2 ∧
+    report (· + ·) 0 .lastWriter [5] bareAndIdTape [(10, 1)] 3 = 2 ∧
+    treeBack (· + ·) 0 bareAndIdTape 10 1 5 = 2 ∧
+    report (· + ·) 0 .firstWriter [5] bareAndIdTape [(10, 1)] (2 * 5) = 4 := by
+  decide
+
+/-- every key popped by the sweep is the key of an entry of the tape -/
+theorem popped_keys : ∀ (tape : List (Entry M)) (bag : List (Nat × M)) (q : Nat × M),
+    q ∈ popped (· + ·) (0 : M) tape bag → ∃ e, e ∈ tape ∧ e.key = q.1 := by
+  intro tape
+  induction tape with
+  | nil => intro bag q hq; simp [popped] at hq
+  | cons e older ih =>
+    intro bag q hq
+    simp only [popped, List.mem_cons] at hq
+    rcases hq with rfl | h
+    · exact ⟨e, List.mem_cons_self .., rfl⟩
+    · obtain ⟨e', he', hk⟩ := ih _ q h
+      exact ⟨e', List.mem_cons_of_mem _ he', hk⟩
+
+/-- **Last writer wins ⇒ a leaf is reported exactly what is left pending under its key.**  Whatever the
+    tape (even if some entry's eager value is that very leaf), no popped adjoint is reported under a leaf
+    label: the popped entry itself is a (newer or equal) writer for its eager value. -/
+theorem report_leaf_lastWriter (leaves : List Nat) (tape : List (Entry M)) (bag : List (Nat × M))
+    (k : Nat) :
+    report (· + ·) (0 : M) .lastWriter leaves tape bag (2 * k) = pend (sw tape bag) k := by
+  simp only [report]
+  have h1 : ∀ (l : List (Nat × M)), (∀ q, q ∈ l → ∃ e, e ∈ tape ∧ e.key = q.1) →
+      pend (l.map (fun p => (lazyLabel .lastWriter leaves tape p.1, p.2))) (2 * k) = 0 := by
+    intro l
+    induction l with
+    | nil => intro _; rfl
+    | cons q l ih =>
+      intro h
+      rw [List.map_cons, pend_cons, ih (fun q' hq' => h q' (List.mem_cons_of_mem _ hq'))]
+      obtain ⟨e, he, hk⟩ := h q (List.mem_cons_self ..)
+      have hodd : lazyLabel .lastWriter leaves tape q.1 ≠ 2 * k := by
+        simp only [lazyLabel]
+        cases hf : tape.findIdx? (fun e => e.key == q.1) with
+        | some i => simp only []; omega
+        | none =>
+          rw [List.findIdx?_eq_none_iff] at hf
+          have := hf e he
+          simp [hk] at this
+      simp [hodd]
+  have h2 : ∀ (l : List (Nat × M)), pend (l.map (fun p => (2 * p.1, p.2))) (2 * k) = pend l k := by
+    intro l
+    induction l with
+    | nil => rfl
+    | cons q l ih =>
+      rw [List.map_cons, pend_cons, pend_cons, ih]
+      by_cases hq : q.1 = k
+      · simp [hq]
+      · have : ¬ 2 * q.1 = 2 * k := by omega
+        simp [hq, this]
+  show pend (_ ++ _) (2 * k) = _
+  rw [pend_append, h1 _ (popped_keys tape bag), h2, zero_add]
 
 /-! ### the concrete rules are additive (in the function they carry) on admissible messages
 
